@@ -404,3 +404,102 @@ Proof.
   - exact E.
 Qed.
 
+(* ---- dropping the hypothesis on the header hook for pipelines of valid requests ----
+   [star C] is C with a header hook that additionally answers 411 to every unframed header section.  A run that
+   ends without error under [star C] is step for step a run under C (the hook agrees wherever [star C] accepts);
+   the valid messages of a pipeline are framed, so they are valid for [star C] too, and [star C] satisfies the
+   hypothesis of server_pipeline_fragmented_real by construction. *)
+Definition star (C : callees) : callees := {|
+  c_start := c_start C;
+  c_hdrs := fun p h => if framed_h p h then c_hdrs C p h else HErr 411;
+  c_decode := c_decode C; c_2047 := c_2047 C; c_trailer := c_trailer C; c_connect := c_connect C |}.
+
+Section Star.
+Variable cfg : config.
+Variable C : callees.
+Variable k : kind.
+
+Lemma star_framed p h : c_hdrs (star C) p h = HOk -> framed_h p h = true.
+Proof. cbn [c_hdrs star]. destruct (framed_h p h); [reflexivity | discriminate]. Qed.
+
+Lemma star_agree p h : c_hdrs (star C) p h = HOk -> c_hdrs C p h = HOk.
+Proof. cbn [c_hdrs star]. destruct (framed_h p h); [intros H; exact H | discriminate]. Qed.
+
+Lemma ohc_star i : match on_headers_complete (star C) k i with inl i2 => on_headers_complete C k i = inl i2 | inr _ => True end.
+Proof.
+  unfold on_headers_complete.
+  destruct (match k with Server => p11 (i_info i) && negb (hmem K_HOST (i_hdrs i)) | Client => false end); [exact I|].
+  destruct (c_hdrs (star C) (p11 (i_info i)) (i_hdrs i)) eqn:H; try exact I.
+  rewrite (star_agree _ _ H). reflexivity.
+Qed.
+
+Lemma after_startline_star i b :
+  match after_startline cfg (star C) k i b with TErr _ => True | t => after_startline cfg C k i b = t end.
+Proof.
+  rewrite (after_startline_eq cfg (star C) k i b), (after_startline_eq cfg C k i b).
+  destruct (i_phase i).
+  - destruct (parse_headers cfg (i_le i) (i_hdrs i) b) as [h b'|h b'|e]; [reflexivity | | exact I].
+    pose proof (ohc_star (set_phase (set_hdrs i h) PBody)) as O.
+    destruct (on_headers_complete (star C) k (set_phase (set_hdrs i h) PBody)) as [i2|e2]; [|exact I].
+    rewrite O. change (after_headers cfg (star C) k i2 b') with (after_headers cfg C k i2 b').
+    destruct (after_headers cfg C k i2 b'); [reflexivity | reflexivity | exact I].
+  - change (after_headers cfg (star C) k i b) with (after_headers cfg C k i b).
+    destruct (after_headers cfg C k i b); [reflexivity | reflexivity | exact I].
+Qed.
+
+Lemma turn_star s : match turn_of cfg (star C) k s with TErr _ => True | t => turn_of cfg C k s = t end.
+Proof.
+  rewrite (turn_of_eq cfg (star C) k s), (turn_of_eq cfg C k s).
+  destruct (cur s) as [i|]; [apply after_startline_star|].
+  change (parse_startline cfg (star C) (buf s)) with (parse_startline cfg C (buf s)).
+  destruct (parse_startline cfg C (buf s)) as [a x'|[[line le] info] rest|e]; [reflexivity | | exact I].
+  apply after_startline_star.
+Qed.
+
+Lemma loop_star F : forall s acc,
+  match loop cfg (star C) k F s acc with (s', ms, None) => loop cfg C k F s acc = (s', ms, None) | _ => True end.
+Proof.
+  induction F as [|f IH]; intros s acc; cbn [loop].
+  - destruct (buf s); [reflexivity | exact I].
+  - destruct (buf s); [reflexivity|]. pose proof (turn_star s) as T.
+    destruct (turn_of cfg (star C) k s) as [s1|s1 m|e]; [rewrite T; reflexivity | rewrite T; apply IH | exact I].
+Qed.
+
+Lemma run_star frags : forall s,
+  match run_keep cfg (star C) k s frags with (s', ms, None) => run_keep cfg C k s frags = (s', ms, None) | _ => True end.
+Proof.
+  induction frags as [|f fr IH]; intros s; cbn [run_keep]; [reflexivity|].
+  pose proof (loop_star (S (List.length (buf s ++ f))) (app_buf s f) []) as LS.
+  rewrite <- (parse_eq cfg (star C) k s f), <- (parse_eq cfg C k s f) in LS.
+  destruct (parse cfg (star C) k s f) as [[s1 m1] [e|]]; [exact I|]. rewrite LS.
+  specialize (IH s1). destruct (run_keep cfg (star C) k s1 fr) as [[s2 m2] [e2|]]; [exact I|]. rewrite IH. reflexivity.
+Qed.
+
+End Star.
+
+(* validity of a message does not depend on the extra refusals of [star C]: valid messages are framed *)
+Lemma w_ok_star (C : callees) m : w_ok C Server m -> w_ok (star C) Server m.
+Proof.
+  unfold w_ok. intros (A1 & A2 & A3 & A4 & A5 & A6 & A7 & A8 & A9 & A10 & A11 & Hfr).
+  assert (F : framed_h (p11 (w_info m)) (w_hdrs m) = true).
+  { unfold framed_h, hmem. destruct (w_fr m) as [body | cs e0 | cs e0 tblock tr tv ns h'].
+    - destruct Hfr as (_ & F2 & _). rewrite F2. reflexivity.
+    - destruct Hfr as (F0 & F1 & _). rewrite F0, F1. apply orb_true_r.
+    - destruct Hfr as (F0 & F1 & _). rewrite F0, F1. apply orb_true_r. }
+  repeat split; try assumption.
+  - cbn [c_hdrs star]. rewrite F. exact A8.
+Qed.
+
+Theorem server_pipeline_fragmented_real_unconditional (PC : callees) (ms : list wmsg) (frags : list bytes) :
+  Forall (w_ok PC Server) ms -> Forall (fun m => no_lf (w_line m) = true) ms ->
+  concat_bytes frags = concat_bytes (map w_wire ms) ->
+  run_keep real PC Server init frags = (init, map w_delivered ms, None).
+Proof.
+  intros H Hl E.
+  assert (H' : Forall (w_ok (star PC) Server) ms).
+  { clear Hl E. induction ms as [|m ms IH]; [constructor|]. inversion H as [|m' ms' Hm Hms]; subst.
+    constructor; [apply w_ok_star, Hm | exact (IH Hms)]. }
+  pose proof (server_pipeline_fragmented_real (star PC) ms frags (star_framed PC) H' Hl E) as R.
+  pose proof (run_star real PC Server frags init) as S. rewrite R in S. exact S.
+Qed.
+
